@@ -136,5 +136,7 @@ def run(S, tier, rep):
     for cfg in (sim_configs("2d", "quick")[0], sim_configs("3d", "quick")[0]) + tuple(sim_configs("passive", "quick")):
         timestep_of(S, cfg, rep)
     convexity(S, rep)
+    from .c10 import wrappers_forward_options
+    wrappers_forward_options(S, rep, rule="C16.w", family_root="FlowSimulator", min_found=3)
     rep.require_min("C16.c", 15)
     rep.require_min("C16.d", 5)
